@@ -732,8 +732,10 @@ func check(c Case) (out ev.Outcome) {
 	}
 
 	if c.Procs >= 1 {
-		prev := runtime.GOMAXPROCS(c.Procs)
-		defer runtime.GOMAXPROCS(prev)
+		if !raceEnabled {
+			prev := runtime.GOMAXPROCS(c.Procs)
+			defer runtime.GOMAXPROCS(prev)
+		}
 	}
 	g := len(procs)
 	fails := make([][]string, g)
